@@ -3,7 +3,7 @@ CONSTANTS
   SpuriousPass = FALSE
   AllSchedules = FALSE
   PermuteModules = FALSE
-  TypeNames = {"X", "u16", "void"}
+  TypeNames = {"X", "u16", "void", "u8"}
   DefSets <- AllDefSets
   UseSeqs <- Q2UseSeqs
   Perts <- NoPerts
